@@ -189,6 +189,39 @@ class Evaluator:
             res = e.get('res', '')
             if res.startswith('Const') or res.startswith('Static'):
                 return self.byteset(self.const_body(e['path']), env)
+            if res in ('Fn', 'AssocFn'):
+                # a predicate `fn(u8) -> bool` (winnow's ContainsToken for functions): the bytes it accepts
+                b = None
+                facts = getattr(self, 'facts', None)
+                for p in (e.get('resolved'), e.get('path')):
+                    if facts is not None and p in facts.bodies:
+                        b = facts.bodies[p]
+                        break
+                if b is not None and len(b.get('params', [])) == 1:
+                    it = Interp(self)
+                    out = set()
+                    for v in range(256):
+                        r = it.apply_fn(b, [v])
+                        if r is True:
+                            out.add(v)
+                        elif r is not False:
+                            raise Unanalysable(f'predicate `{e.get("path")}` does not evaluate to a bool')
+                    return frozenset(out)
+                std = {'is_ascii_digit': BYTE_PREDICATES.get('is_ascii_digit'), 'is_ascii_hexdigit': BYTE_PREDICATES.get('is_ascii_hexdigit'),
+                       'is_ascii_alphabetic': BYTE_PREDICATES.get('is_ascii_alphabetic'), 'is_ascii_alphanumeric': BYTE_PREDICATES.get('is_ascii_alphanumeric')}
+                seg = last_seg(e.get('path') or '')
+                if std.get(seg):
+                    return frozenset(v for v in range(256) if std[seg](v))
+        if k == 'closure' and len(e.get('params', [])) == 1:
+            it = Interp(self)
+            out = set()
+            for v in range(256):
+                r = it.apply(('closure', e, dict(env or {})), [v])
+                if r is True:
+                    out.add(v)
+                elif r is not False:
+                    raise Unanalysable('predicate closure does not evaluate to a bool')
+            return frozenset(out)
         if k == 'cast':
             return self.byteset(e['a'], env)
         if k == 'index':
@@ -353,6 +386,60 @@ class IterObj:
         return f'IterObj({self.rest()!r})'
 
 
+def rust_str_literal(lit):
+    """value of a Rust string literal token (`"..."` with \\n \\t \\r \\0 \\\\ \\" \\' \\xNN \\u{..} and line continuations)"""
+    body = lit[1:-1]
+    out = []
+    i = 0
+    while i < len(body):
+        c = body[i]
+        if c != '\\':
+            out.append(c)
+            i += 1
+            continue
+        n = body[i + 1:i + 2]
+        simple = {'n': '\n', 't': '\t', 'r': '\r', '0': '\0', '\\': '\\', '"': '"', "'": "'"}
+        if n in simple:
+            out.append(simple[n])
+            i += 2
+        elif n == 'x':
+            out.append(chr(int(body[i + 2:i + 4], 16)))
+            i += 4
+        elif n == 'u' and body[i + 2:i + 3] == '{':
+            j = body.index('}', i)
+            out.append(chr(int(body[i + 3:j].replace('_', ''), 16)))
+            i = j + 1
+        elif n == '\n':
+            i += 2
+            while i < len(body) and body[i] in ' \t\n\r':
+                i += 1
+        else:
+            raise Unanalysable(f'escape `\\{n}` in a string literal')
+    return ''.join(out)
+
+
+class VecObj:
+    """a growable sequence (`Vec`, `String` buffers of items): `push` / `insert` / `remove` change it in place, whoever holds it sees the change"""
+
+    def __init__(self, items=()):
+        self.items = list(items)
+
+    def __eq__(self, other):
+        return isinstance(other, VecObj) and self.items == other.items or (isinstance(other, tuple) and tuple(self.items) == other)
+
+    def __hash__(self):
+        return id(self)
+
+    def __len__(self):
+        return len(self.items)
+
+    def __iter__(self):
+        return iter(self.items)
+
+    def __repr__(self):
+        return f'Vec{self.items!r}'
+
+
 class Ret(Exception):
     def __init__(self, v):
         self.v = v
@@ -370,6 +457,16 @@ class Interp:
 
     def val(self, e, env):
         k = e.get('k')
+        if k == 'block' and e.get('inl'):
+            # the body of a helper expanded at its call (verif/normalise.py): `return` and `?` inside it leave the helper, not the caller
+            try:
+                for s in e.get('stmts', []):
+                    self.val(s, env)
+                if e.get('expr') is not None:
+                    return self.val(e['expr'], env)
+                return ()
+            except Ret as r:
+                return r.v
         if k == 'block':
             for s in e.get('stmts', []):
                 self.val(s, env)
@@ -461,11 +558,31 @@ class Interp:
                     raise EvalPanic(f'`{a} {op} {b}` overflows {ty} (line {e.get("l")})')
                 return r
         if k == 'loop':
+            watch = getattr(self, 'watch_progress', False)
+            cands = None
+
+            def sizes():
+                out = {}
+                for nm, v in env.items():
+                    if isinstance(v, str):
+                        out[nm] = len(v.encode('utf-8'))
+                    elif isinstance(v, IterObj):
+                        out[nm] = len(v.items) - v.pos
+                return out
+            prev = sizes() if watch else None
             for _ in range(200000):
                 try:
                     self.val(e['body'], env)
                 except Brk:
                     return ()
+                if watch:
+                    # a variant: some string / iterator the loop works on got strictly shorter in every iteration so far
+                    cur = sizes()
+                    dec = {nm for nm in cur if nm in prev and cur[nm] < prev[nm]}
+                    cands = dec if cands is None else (cands & dec)
+                    if not cands:
+                        raise EvalPanic(f'the loop at line {e.get("l")} went round without shortening any string or iterator it works on (no progress)')
+                    prev = cur
             raise Unanalysable('loop does not terminate in evaluation')
         if k == 'break':
             raise Brk()
@@ -495,7 +612,21 @@ class Interp:
             raise Unanalysable('`?` on a value the evaluator does not model')
         if k == 'index':
             base = self.val(e['base'], env)
+            if isinstance(base, VecObj):
+                base = tuple(base.items)
             idx = self.val(e['idx'], env)
+            if isinstance(base, str) and isinstance(idx, tuple) and idx and idx[0] == 'range':
+                # a str is sliced by byte offsets, which must fall on character boundaries
+                bs = base.encode('utf-8')
+                lo = 0 if idx[1] in (None, -INF) else idx[1]
+                hi = len(bs) if idx[2] in (None, INF) else idx[2] + 1
+                if lo > hi or hi > len(bs) or lo < 0:
+                    raise EvalPanic(f'slice {lo}..{hi} out of range for a str of {len(bs)} bytes (line {e.get("l")})')
+                try:
+                    bs[:lo].decode('utf-8')
+                    return bs[lo:hi].decode('utf-8')
+                except UnicodeDecodeError:
+                    raise EvalPanic(f'slice {lo}..{hi} of {base!r} is not on a character boundary (line {e.get("l")})')
             if isinstance(base, (str, tuple, list)) and not (isinstance(base, tuple) and base and base[0] in ('ctor', 'struct', 'range', 'closure')):
                 if isinstance(idx, tuple) and idx and idx[0] == 'range':
                     lo = 0 if idx[1] in (None, -INF) else idx[1]
@@ -544,12 +675,16 @@ class Interp:
                 return ('ctor', p, tuple(args))
             if seg == 'from' and len(args) == 1:
                 return args[0]
+            if p.split('::<')[0] == 'alloc::vec::Vec' and seg in ('new', 'with_capacity'):
+                return VecObj()
             if seg == 'new' and len(args) == 1 and p.split('::<')[0] in ('alloc::boxed::Box', 'alloc::rc::Rc', 'alloc::sync::Arc', 'core::cell::RefCell', 'core::cell::Cell'):
                 return args[0]          # a box is its content
             if 'RangeInclusive' in p and seg == 'new':
                 return ('range', args[0], args[1])
             if seg == 'into_iter' and len(args) == 1:
                 a0 = args[0]
+                if isinstance(a0, VecObj):
+                    return IterObj(a0.items)
                 if isinstance(a0, IterObj):
                     return a0
                 if isinstance(a0, tuple) and len(a0) == 2 and a0[0] == 'iter':
@@ -579,6 +714,36 @@ class Interp:
                 return BYTE_PREDICATES[name](recv)
             SOME, NONE, OK, ERR = 'core::option::Option::Some', 'core::option::Option::None', 'core::result::Result::Ok', 'core::result::Result::Err'
             opt = lambda x: ('ctor', NONE) if x is None else ('ctor', SOME, (x,))
+            if isinstance(recv, VecObj):
+                if name == 'push' and len(args) == 1:
+                    recv.items.append(args[0])
+                    return ()
+                if name == 'pop' and not args:
+                    return opt(recv.items.pop() if recv.items else None)
+                if name == 'insert' and len(args) == 2 and isinstance(args[0], int):
+                    if not 0 <= args[0] <= len(recv.items):
+                        raise EvalPanic(f'insert at {args[0]} in a Vec of {len(recv.items)} (line {e.get("l")})')
+                    recv.items.insert(args[0], args[1])
+                    return ()
+                if name == 'remove' and len(args) == 1 and isinstance(args[0], int):
+                    if not 0 <= args[0] < len(recv.items):
+                        raise EvalPanic(f'remove at {args[0]} in a Vec of {len(recv.items)} (line {e.get("l")})')
+                    return recv.items.pop(args[0])
+                if name in ('clone', 'to_vec', 'to_owned') and not args:
+                    return VecObj(recv.items)
+                if name in ('extend', 'extend_from_slice', 'append') and len(args) == 1:
+                    src = args[0]
+                    recv.items.extend(src.rest() if isinstance(src, IterObj) else list(src[1]) if isinstance(src, tuple) and len(src) == 2 and src[0] == 'iter' else list(src))
+                    return ()
+                if name == 'clear' and not args:
+                    recv.items.clear()
+                    return ()
+                if name in ('as_slice', 'as_mut_slice', 'deref', 'deref_mut', 'as_ref', 'as_mut', 'borrow') and not args:
+                    return recv
+                # everything else reads the Vec like a slice
+                recv = tuple(recv.items)
+            if isinstance(recv, tuple) and name == 'to_vec' and not args and not (recv and recv[0] in ('ctor', 'struct', 'range', 'closure', 'iter', 'opaque', 'rec')):
+                return VecObj(recv)
             if isinstance(recv, IterObj):
                 if name == 'next' and not args:
                     return self._iter_next(recv)
@@ -706,6 +871,23 @@ class Interp:
                     return len(recv) == 0
                 if name == 'get' and len(args) == 1 and isinstance(args[0], int):
                     return ('ctor', SOME, (recv[args[0]],)) if 0 <= args[0] < len(recv) else ('ctor', NONE)
+                if name in ('split_at', 'split_at_mut') and len(args) == 1 and isinstance(args[0], int) and not isinstance(args[0], bool):
+                    if isinstance(recv, str):
+                        bs = recv.encode('utf-8')
+                        if not 0 <= args[0] <= len(bs):
+                            raise EvalPanic(f'split_at({args[0]}) on a str of {len(bs)} bytes (line {e.get("l")})')
+                        try:
+                            return (bs[:args[0]].decode('utf-8'), bs[args[0]:].decode('utf-8'))
+                        except UnicodeDecodeError:
+                            raise EvalPanic(f'split_at({args[0]}) of {recv!r} is not on a character boundary (line {e.get("l")})')
+                    if not 0 <= args[0] <= len(recv):
+                        raise EvalPanic(f'split_at({args[0]}) on a slice of {len(recv)} (line {e.get("l")})')
+                    return (recv[:args[0]], recv[args[0]:])
+                if isinstance(recv, str) and name in ('strip_prefix', 'strip_suffix') and len(args) == 1 and isinstance(args[0], str):
+                    hit = recv.startswith(args[0]) if name == 'strip_prefix' else recv.endswith(args[0])
+                    return opt((recv[len(args[0]):] if name == 'strip_prefix' else recv[:len(recv) - len(args[0])]) if hit else None)
+                if isinstance(recv, str) and name in ('starts_with', 'ends_with', 'contains') and len(args) == 1 and isinstance(args[0], str):
+                    return recv.startswith(args[0]) if name == 'starts_with' else recv.endswith(args[0]) if name == 'ends_with' else args[0] in recv
                 if isinstance(recv, tuple) and not args and name in ('last', 'first', 'last_mut', 'first_mut'):
                     return opt((recv[-1] if name.startswith('last') else recv[0]) if recv else None)
                 if isinstance(recv, tuple) and not args and name in ('split_last', 'split_first'):
@@ -866,7 +1048,92 @@ class Interp:
         env = {}
         for p, a in zip(params, args):
             self.bind(p, a, env)
-        return self._call_body(body['body'], env)
+        saved = getattr(self, 'file', None)
+        if body.get('file'):
+            self.file = body['file']
+        try:
+            return self._call_body(body['body'], env)
+        finally:
+            self.file = saved
+
+    # `write!(w, "lit {a}{b:04X}", ..)`: the literal comes from the source facts (file, line), the arguments from the tuple the macro desugars to
+    def format_text(self, e, env):
+        a0 = peel(e['args'][0]) if e.get('args') else {}
+        if a0.get('k') == 'call' and last_seg(peel(a0.get('f', {})).get('path') or '') in ('from_str', 'new_const') and a0.get('args'):
+            # a format string without arguments (`writeln!(w)`, `write!(w, "text")`) desugars to the text itself
+            v = self.val(a0['args'][0], env)
+            if isinstance(v, str):
+                return v
+            if isinstance(v, tuple) and all(isinstance(x, str) for x in v):
+                return ''.join(v)
+        facts = getattr(self.ev, 'facts', None)
+        file = getattr(self, 'file', None)
+        if facts is None or not file:
+            raise Unanalysable('format string: the file of the evaluated function is unknown')
+        from .core import src_facts
+        idx = getattr(facts, '_fmt_index', None)
+        if idx is None:
+            idx = facts._fmt_index = {}
+            for m in src_facts(facts.repo)['fmts']:
+                idx.setdefault((m['file'], m['line']), []).append(m)
+        rel = facts.rel(file)
+        cands = idx.get((rel, e.get('l'))) or []
+        if not cands and e.get('m') == 'writeln':
+            return '\n'               # `writeln!(w)`
+        if len(cands) != 1:
+            raise Unanalysable(f'format string at {rel}:{e.get("l")} not found ({len(cands)} candidates)')
+        lit = cands[0]['lit']
+        if not (lit.startswith('"') and lit.endswith('"')):
+            raise Unanalysable('raw / non-literal format string')
+        text = rust_str_literal(lit)
+        # the argument tuple: first `let` of the desugared block
+        argv = None
+        blk = e['args'][0] if e.get('args') else {}
+        for st in blk.get('stmts', []) if blk.get('k') == 'block' else []:
+            if st.get('k') == 'let' and peel(st.get('init', {})).get('k') == 'tup':
+                argv = [self.val(x, env) for x in peel(st['init'])['elems']]
+                break
+        if argv is None:
+            argv = []
+        out, i, order = [], 0, {}
+        n = 0
+        while i < len(text):
+            c = text[i]
+            if c == '{' and text[i + 1:i + 2] == '{':
+                out.append('{')
+                i += 2
+            elif c == '}' and text[i + 1:i + 2] == '}':
+                out.append('}')
+                i += 2
+            elif c == '{':
+                j = text.index('}', i)
+                name, _, spec = text[i + 1:j].partition(':')
+                if name == '' or name.isdigit():
+                    key = ('pos', n if name == '' else int(name))
+                    n += 1 if name == '' else 0
+                else:
+                    key = ('name', name)
+                if key not in order:
+                    order[key] = len(order)
+                if order[key] >= len(argv):
+                    raise Unanalysable(f'format argument {key} has no value')
+                v = argv[order[key]]
+                if spec == '':
+                    if isinstance(v, bool):
+                        out.append('true' if v else 'false')
+                    elif isinstance(v, (int, str)):
+                        out.append(str(v))
+                    else:
+                        raise Unanalysable(f'Display of {v!r:.40} in a format string')
+                elif isinstance(v, int) and not isinstance(v, bool) and spec and spec[-1] in 'Xxdb' and (spec[:-1] == '' or spec[:-1].isdigit()):
+                    out.append(format(v, spec))
+                else:
+                    raise Unanalysable(f'format spec `{spec}`')
+                i = j + 1
+            else:
+                out.append(c)
+                i += 1
+        return ''.join(out) + ('\n' if cands[0].get('macro') == 'writeln' else '')
 
     def _call_body(self, node, env):
         self._depth = getattr(self, '_depth', 0) + 1
@@ -960,7 +1227,7 @@ class Interp:
         raise Unanalysable(f'pattern `{k}` in evaluation')
 
 
-def truth_table(ev, expr, atom_of, nvars=None):
+def truth_table(ev, expr, atom_of, nvars=None, base_env=None):
     """Tabulate a boolean expression over the atoms recognised by `atom_of(node) -> name | None`
     (each atom becomes a boolean variable).  Returns (sorted atom names, {assignment tuple: bool})."""
     import copy
@@ -987,7 +1254,8 @@ def truth_table(ev, expr, atom_of, nvars=None):
     interp = Interp(ev)
     table = {}
     for vals in itertools.product((False, True), repeat=len(names)):
-        env = dict(zip(names, vals))
+        env = dict(base_env or {})
+        env.update(zip(names, vals))
         table[vals] = bool(interp.run(e, env))
     return names, table
 
@@ -1135,6 +1403,10 @@ FLOAT_REPS = {
 }
 
 
+class Rejected(Exception):
+    """a value filter (verify / verify_map / try_map) said no"""
+
+
 class ParseValueInterp(FxInterp):
     """Evaluates the *value* a parser function computes from the outputs of its atomic sub-parsers, which are supplied in parse order:
     `(a, b).map(|(x, y)| f(x, y)).parse_next(input)` and `let x = a.parse_next(input)?; let y = b.parse_next(input)?; Ok(f(x, y))`
@@ -1166,15 +1438,39 @@ class ParseValueInterp(FxInterp):
             if self.choices:
                 return self.output_of(peel(pe['args'][0])['elems'][self.choices.pop(0)], env)
             # no choice supplied: the alternation as a whole is one atomic sub-parser
-        if k == 'mcall' and pe.get('name') in ('verify', 'void', 'span', 'with_span', 'take') and pe.get('name') == 'verify':
-            return self.output_of(pe['recv'], env)
+        if k == 'mcall' and pe.get('name') == 'verify' and pe.get('args'):
+            inner = self.output_of(pe['recv'], env)
+            if not self.apply(self.val(pe['args'][0], env), [inner]):
+                raise Rejected('verify')
+            return inner
+        if k == 'mcall' and pe.get('name') in ('verify_map', 'try_map') and pe.get('args'):
+            inner = self.output_of(pe['recv'], env)
+            r = self.apply(self.val(pe['args'][0], env), [inner])
+            if isinstance(r, tuple) and r[:1] == ('ctor',) and (r[1].endswith('Option::Some') or r[1].endswith('Result::Ok')):
+                return r[2][0]
+            if isinstance(r, tuple) and r[:1] == ('ctor',) and (r[1].endswith('Option::None') or r[1].endswith('Result::Err')):
+                raise Rejected(pe['name'])
+            raise Unanalysable(f'`{pe["name"]}` closure evaluates to {r!r:.60}')
         if not self.queue:
             raise Unanalysable('more sub-parsers than supplied outputs')
         return self.queue.pop(0)
 
     def val(self, e, env):
         if e.get('k') == 'mcall' and e.get('name') == 'parse_next':
-            return ('ctor', 'core::result::Result::Ok', (self.output_of(e['recv'], env),))
+            try:
+                return ('ctor', 'core::result::Result::Ok', (self.output_of(e['recv'], env),))
+            except Rejected as r:
+                return ('ctor', 'core::result::Result::Err', (('rejected', str(r)),))
+        if e.get('k') == 'call' and (peel(e.get('f', {})).get('path') or '').startswith('winnow::error::'):
+            return ('error', last_seg(peel(e['f'])['path']))        # an error value under construction
+        if e.get('k') == 'mcall' and e.get('name') != 'parse_next':
+            # stream bookkeeping (`input.checkpoint()`, `input.reset(&cp)`) and error adaptors (`.cut()`) carry no value of interest
+            try:
+                recv = self.val(e['recv'], env)
+            except Unanalysable:
+                recv = None
+            if isinstance(recv, tuple) and recv and recv[0] in ('opaque', 'error') and self._workspace_method(e) is None:
+                return recv if recv[0] == 'error' else ('opaque',)
         return super().val(e, env)
 
 
@@ -1232,6 +1528,11 @@ class RecInterp(FxInterp):
                     old = base[2][r['name']]
                     base[2][r['name']] = ('ctor', 'core::option::Option::None')
                     return old
+        if k == 'mcall' and e.get('name') == 'write_fmt' and 'write_str' in self.record:
+            text = self.format_text(e, env)
+            self.calls.append(('write_str', [text]))
+            self.trace.append(('write_str', None, [text]))
+            return ('ctor', 'core::result::Result::Ok', ((),))
         if k == 'mcall' and e.get('name') in self.stubs:
             return self.stubs[e['name']]
         if k == 'mcall' and e.get('name') in self.record:
